@@ -7,7 +7,7 @@ CONSTANTS
   Log = {"l1", "l2"}
   MaxSeq = 2
   PrunePositions <- LastOfFirstAuthor
-  MaxDeliver = 3
+  MaxDeliver = 4
   MaxInFlight = 1
   ForgeBudget = 1
   Classes <- OnlyCrossLog
